@@ -1398,6 +1398,11 @@ func ruleR98(c *Ctx) {
 			if owner == nil || !ll[owner] {
 				return true
 			}
+			if existenceFlags(p)[fv] {
+				n++
+				c.Ok(f, call, "write of "+owner.Obj().Name()+"."+fv.Name()+" ("+m+")", what, "not a listening flag: set only inside the Once.Do that launches the node's goroutine (it says that the mailbox has an owner)", false)
+				return true
+			}
 			n++
 			okSite := inRun[f] == owner || inRun[f.Root()] == owner
 			c.Check(okSite, f, call, "write of "+owner.Obj().Name()+"."+fv.Name()+" ("+m+")", what, ifElse(okSite, "in the node's own goroutine", "in "+f.QName()+", which runs in the arriving token's (or a caller's) goroutine"))
